@@ -291,7 +291,7 @@ class Track:
         self.err = 0.0                # running absolute error bound of the final value(s)
         self.big = False              # an intermediate left the comfortable range
         self.dead_error = False       # the body of an empty Sum is undefined (sympy may evaluate it while parsing)
-        self.reversed_sum = False     # a Sum with upper limit < lower limit - 1 was evaluated (known finding PF-27)
+        self.reversed_sum = False     # a Sum with upper limit < lower limit - 1 was evaluated (known finding PF-C12e)
 
 
 class N:
@@ -895,7 +895,7 @@ def normalise_env(env):
 # engine: implementation outcome + written formula + scope  ->  Lean judge  ->  verdict
 # ---------------------------------------------------------------------------------------------
 
-PF27_LISTED = [False]     # set by run(): is PF-27 an open known finding (then its class is not judged)
+PF27_LISTED = [False]     # set by run(): is PF-C12e an open known finding (then its class is not judged)
 PF29_LISTED = [False]
 
 
@@ -903,7 +903,7 @@ INSPECTING = ('min', 'max', 'mod', 'floor', 'ceil', 'abs', 'lt', 'le', 'gt', 'ge
 
 
 def closed_sum_inspected(t, symbolic=(), inspected=False, bound=()) -> bool:
-    """class (b) of PF-27 / PF-29: a Sum all of whose free names are numbers for sympy (none as written, or all in
+    """class (b) of PF-C12e / PF-C12f: a Sum all of whose free names are numbers for sympy (none as written, or all in
     `symbolic`, the names replaced by evaluate_symbolic) below a function that needs its sign or value"""
     if t[0] == 'sum':
         free = [x for x in tree_vars(t) if x not in bound]
@@ -917,7 +917,7 @@ def closed_sum_inspected(t, symbolic=(), inspected=False, bound=()) -> bool:
 
 
 def nested_sum_in_minmax(t) -> bool:
-    """class of PF-29: a Min/Max with an argument that contains a Sum inside the body of another Sum"""
+    """class of PF-C12f: a Min/Max with an argument that contains a Sum inside the body of another Sum"""
     def nested(u, inside):
         if u[0] == 'sum':
             if inside:
@@ -962,7 +962,7 @@ def prepare(case: Case):
     case.scale = tr.scale
     case.dead_error = tr.dead_error
     if PF27_LISTED[0] and (tr.reversed_sum or closed_sum_inspected(case.tree, tuple(case.extra.get('symbolic', ())))):
-        case.skip = 'known-PF-27'
+        case.skip = 'known-PF-C12e'
     elif case.floats and (tr.fragile or tr.big):
         case.skip = 'fragile' if tr.fragile else 'range'
     elif tr.scale > 1e15:
@@ -1047,7 +1047,7 @@ def verdict(ctx, case: Case, ans):
         return None
     if PF29_LISTED[0] and exc == 'ValueError' and 'not comparable' in impl[2] and tree_has(case.tree, ('sum',)) \
             and tree_has(case.tree, ('min', 'max')):
-        ctx.count(fam + ':suppressed-known-PF-29')
+        ctx.count(fam + ':suppressed-known-PF-C12f')
         return None
     return ('violation', 'raised %s (%s) where the written formula has the value %s'
             % (exc, impl[2][:120], _show(parse_val(ans[1]))))
@@ -1911,10 +1911,10 @@ def compare_verdict(ctx, op, ltree, rtree, ans, model, evals):
     if PF27_LISTED[0]:
         both = ('vecx', ltree, rtree)
         if rough_closed_sum(both):
-            ctx.count('compare:skipped-known-PF-27')
+            ctx.count('compare:skipped-known-PF-C12e')
             return []
         if not tree_vars(both) and hits_reversed_sum(both, {}):
-            ctx.count('compare:skipped-known-PF-27')
+            ctx.count('compare:skipped-known-PF-C12e')
             return []
         evals = [(env, r) for env, r in evals if not hits_reversed_sum(both, env)]
     closed = not tree_vars(ltree) and not tree_vars(rtree)
@@ -2144,8 +2144,8 @@ def rebuild_case(rec):
 
 
 def load_known(ctx):
-    PF27_LISTED[0] = any(kf.get('finding') == 'PF-27' for kf in ctx.findings.for_property('C12'))
-    PF29_LISTED[0] = any(kf.get('finding') == 'PF-29' for kf in ctx.findings.for_property('C12'))
+    PF27_LISTED[0] = any(kf.get('finding') == 'PF-C12e' for kf in ctx.findings.for_property('C12'))
+    PF29_LISTED[0] = any(kf.get('finding') == 'PF-C12f' for kf in ctx.findings.for_property('C12'))
 
 
 def replay(ctx: core.Ctx, rec: dict, from_corpus: bool = False) -> bool:
@@ -2174,40 +2174,40 @@ def replay(ctx: core.Ctx, rec: dict, from_corpus: bool = False) -> bool:
 
 
 def known_pf27(ctx):
-    """PF-27 (open): a Sum whose upper limit is below its lower limit - 1.  Numeric evaluation runs python's empty
+    """PF-C12e (open): a Sum whose upper limit is below its lower limit - 1.  Numeric evaluation runs python's empty
     range (value 0); once the limits are numbers sympy evaluates the same Sum by Karr's convention
     (Sum(f, (i, a, b)) = -Sum(f, (i, b+1, a-1))) wherever it needs its sign or value (Min/Max, comparisons), so
     substituting first and evaluating later gives another value than evaluating at once."""
     numpy, sympy, ES, EV, Expression, TimeType = _imports()
     for kf in ctx.findings.for_property('C12'):
-        if kf.get('finding') != 'PF-27':
+        if kf.get('finding') != 'PF-C12e':
             continue
         w = kf['witness']
         scope = {k: (float(F(v)) if '/' in str(v) or '.' in str(v) else int(v)) for k, v in w['scope'].items()}
         at_once = outcome(lambda: ES(w['expression']).evaluate_in_scope(scope))
         first = outcome(lambda: ES(w['expression']).evaluate_symbolic(scope).evaluate_in_scope({}))
-        ctx.case('known-finding PF-27 ' + w['expression'], nontrivial=False)
+        ctx.case('known-finding PF-C12e ' + w['expression'], nontrivial=False)
         if at_once[0] == 'ok' and first[0] == 'ok' and at_once[1] != first[1]:
-            ctx.known_finding('PF-27', '%s with %s evaluates to %s at once but to %s after substituting the same values first '
+            ctx.known_finding('PF-C12e', '%s with %s evaluates to %s at once but to %s after substituting the same values first '
                               '(reversed summation range: lambdified empty range vs sympy\'s Karr convention)'
                               % (w['expression'], w['scope'], at_once[1], first[1]))
         return
 
 
 def known_pf29(ctx):
-    """PF-29 (open): Min/Max over a nested Sum.  Once substitution leaves the nested Sum without free names sympy's
+    """PF-C12f (open): Min/Max over a nested Sum.  Once substitution leaves the nested Sum without free names sympy's
     Min/Max cannot compare it and `evaluate_symbolic` raises ValueError, although the formula evaluates at once."""
     numpy, sympy, ES, EV, Expression, TimeType = _imports()
     for kf in ctx.findings.for_property('C12'):
-        if kf.get('finding') != 'PF-29':
+        if kf.get('finding') != 'PF-C12f':
             continue
         w = kf['witness']
         scope = {k: (float(F(v)) if '/' in str(v) or '.' in str(v) else int(v)) for k, v in w['scope'].items()}
         at_once = outcome(lambda: ES(w['expression']).evaluate_in_scope(scope))
         first = outcome(lambda: ES(w['expression']).evaluate_symbolic(scope).evaluate_in_scope({}))
-        ctx.case('known-finding PF-29 ' + w['expression'], nontrivial=False)
+        ctx.case('known-finding PF-C12f ' + w['expression'], nontrivial=False)
         if at_once[0] == 'ok' and first[0] == 'exc':
-            ctx.known_finding('PF-29', '%s with %s evaluates to %s at once but evaluate_symbolic with the same values raises %s (%s)'
+            ctx.known_finding('PF-C12f', '%s with %s evaluates to %s at once but evaluate_symbolic with the same values raises %s (%s)'
                               % (w['expression'], w['scope'], at_once[1], first[1], first[2][:80]))
         return
 
